@@ -186,6 +186,8 @@ def run_sites1(col, t, out):
     sites = ["gen.check_on_geo1"]
     if t["fault"] not in ("missing_names", "missing_coords", "missing_dirs", "unknown_sheet"):
         sites += (["MultiSetup_PreGER.def_geo1", "MultiSetup_PoSER.def_geo1"] if multi else ["SingleSetup.def_geo1"])
+    if t.get("argform") == "array":
+        sites = [x for x in sites if "def_geo1" in x]
     for site in sites:
         d, ref_ind = tables1(t)
         col.count()
@@ -205,10 +207,12 @@ def run_sites1(col, t, out):
                     setup = object.__new__(MultiSetup_PoSER)
                     setup.ref_ind = ref_ind
                 kw = {}
+                arr = t.get("argform") == "array"
                 for key, arg in (("sensors lines", "sens_lines"), ("BG nodes", "bg_nodes"), ("BG lines", "bg_lines"), ("BG surfaces", "bg_surf")):
                     if key in d:
-                        kw[arg] = d[key]
-                setup.def_geo1(sens_names=d["sensors names"], sens_coord=d["sensors coordinates"], sens_dir=d["sensors directions"], **kw)
+                        kw[arg] = d[key].to_numpy() if arr else d[key]
+                sdir = d["sensors directions"].to_numpy() if arr else d["sensors directions"]
+                setup.def_geo1(sens_names=d["sensors names"], sens_coord=d["sensors coordinates"], sens_dir=sdir, **kw)
                 geo = setup.geo1
             got = "Geometry"
         except ValueError:
@@ -217,8 +221,9 @@ def run_sites1(col, t, out):
             got = type(e).__name__
         if got != out["outcome"]:
             what = "accepted_malformed" if got == "Geometry" else (f"raised_{got}" if out["outcome"] == "Geometry" else f"raised_{got}_not_ValueError")
-            col.violation(f"{site}/{what}/{t['form']}/{t['fault']}", f"{site}: outcome {got}, specification says {out['outcome']}; names form "
-                          f"{t['form']}, fault {t['fault']}, optional sheets {t['opt']}", dict(rep, site=site))
+            col.violation(f"{site}/{what}/{t['form']}/{t['fault']}" + ("/array_arguments" if t.get("argform") == "array" else ""),
+                          f"{site}: outcome {got}, specification says {out['outcome']}; names form "
+                          f"{t['form']}, fault {t['fault']}, optional sheets {t['opt']}, argument form {t.get('argform', 'frame')}", dict(rep, site=site))
             continue
         if got == "Geometry":
             if judge_geo1(col, site, t, out, geo, dict(rep, site=site)) and setup is not None:
@@ -418,8 +423,14 @@ def run(ctx):
         allnames = "<<" + ", ".join(f'<<"s", {i}>>' for i in range(1, n + 1)) + ">>"
         lines = "<<<<1, 2>>, <<2, %d>>>>" % n if n >= 2 else "<<>>"
         sets.append(
-            "{[n |-> %d, form |-> f, order |-> o, rowperm |-> rp, fault |-> ft, opt |-> op, lines |-> %s, lays |-> <<>>, allnames |-> %s] : "
+            "{[n |-> %d, form |-> f, order |-> o, rowperm |-> rp, fault |-> ft, opt |-> op, lines |-> %s, lays |-> <<>>, allnames |-> %s, "
+            "argform |-> \"frame\"] : "
             "f \\in {\"row\", \"list\", \"array\"}, o \\in %s, rp \\in %s, ft \\in {\"none\"} \\cup Faults1, op \\in %s}"
+            % (n, lines, allnames, perms_tla(n), perms_tla(n), subsets_tla(OPT1, opts if n >= 2 else [[], ["BG nodes"]])))
+        # documented array forms of the direction table and of the optional tables (def_geo1 only)
+        sets.append(
+            "{[n |-> %d, form |-> f, order |-> o, rowperm |-> rp, fault |-> \"none\", opt |-> op, lines |-> %s, lays |-> <<>>, allnames |-> %s, "
+            "argform |-> \"array\"] : f \\in {\"list\", \"array\"}, o \\in %s, rp \\in %s, op \\in %s}"
             % (n, lines, allnames, perms_tla(n), perms_tla(n), subsets_tla(OPT1, opts if n >= 2 else [[], ["BG nodes"]])))
     consts = {"Kind": "geo1", "TableSets": Raw("UNION {" + ", ".join(sets) + "}"), "Faults1": set(FAULTS1), "Faults2": set(FAULTS2)}
     mod, cfg = ctx.model("Geo", "geo1", consts, invariants=["RejectIffMalformed", "OptionalSheetsOptional", "ZeroBased", "RowKIsSensorK"],
